@@ -19,7 +19,8 @@ import (
 // Real couchbase.healthCheck driving the real client.Ping over the simulated cluster, virtual clock.
 
 type HCParams struct {
-	Mode string `json:"mode"` // patterns | stop | calls
+	Mode     string `json:"mode"`      // patterns | stop | calls
+	SlowFail bool   `json:"slow_fail"` // failing pings take 1.5 s instead of 0.2 s
 }
 
 func init() {
@@ -41,9 +42,11 @@ func init() {
 			return []Instance{
 				{Scenario: "c19_hc", Params: mustJSON(HCParams{Mode: "patterns"}), Bound: 0, Shards: 4},
 				{Scenario: "c19_hc", Params: mustJSON(HCParams{Mode: "stop"}), Bound: b, Shards: 8},
+				{Scenario: "c19_hc", Params: mustJSON(HCParams{Mode: "stop", SlowFail: true}), Bound: b, Shards: 8, Note: "failing pings take 1.5 s (longer than the retry wait): Stop() while such a ping is in flight"},
 				{Scenario: "c19_hc", Params: mustJSON(HCParams{Mode: "calls"}), Bound: 0},
 				{Scenario: "c13_shutdown", Params: mustJSON(ShutdownParams{Case: "idle", Checkpoint: "auto", Mitigation: true, Health: true, Membership: "static", MaxPoint: 1}), Bound: 0, Note: "the checker as wired into the client: Close() of the client stops it (API disabled, the default of the harness): no ping afterwards, no late fail-stop"},
 				{Scenario: "c13_shutdown", Params: mustJSON(ShutdownParams{Case: "pingfail", Checkpoint: "auto", Health: true, Membership: "static", MaxPoint: 40}), Bound: 0, Shards: 4, Note: "Close() of the client at every point of a failing health-check round"},
+				{Scenario: "c19_wired", Params: mustJSON(struct{}{}), Bound: 0, Note: "through the real newDcp/Start() with the HTTP API disabled: five failed pings terminate the process; no ping when the health check is switched off"},
 				{Scenario: "c19_endpoints", Params: mustJSON(struct{}{}), Bound: 0, Shards: 2, Note: "what a failed ping is: per-service endpoint lists of a multi-node cluster with some nodes down"},
 			}
 		},
@@ -124,6 +127,10 @@ func hcMain(p HCParams) {
 		vrt.Logf("served fail=%v round=%d t=%.1fs", lastFail, rd, float64(vrt.NowNanos()-t0)/1e9)
 		if !lastFail {
 			rd++
+		}
+		if lastFail && p.SlowFail {
+			// a failure that takes its time (e.g. a node that answers only just inside the ping time-out)
+			return gocbcore.SimAnswer{Kind: "delay", Delay: 1500 * time.Millisecond}
 		}
 		return gocbcore.SimAnswer{Kind: "delay", Delay: 200 * time.Millisecond}
 	}
@@ -341,4 +348,68 @@ func endpointsMain() {
 	hc.Start()
 	vrt.Sleep(10 * time.Second)
 	hc.Stop()
+}
+
+// c19_wired: the checker as the client wires it in, through the real newDcp / Start(): the cluster stops
+// answering pings; the process has to terminate (fail-stop of the health checker) - whether the HTTP API is
+// enabled or not, and never when the health check is switched off.
+func init() {
+	scenarios["c19_wired"] = func(raw json.RawMessage) *vrt.Scenario {
+		return &vrt.Scenario{Name: "c19_wired", FreeChoices: true, NoTimerAlt: true, MaxSteps: 2_000_000, Main: func() {
+			resetGlobals()
+			health := vrt.Choose(2, true, "health-check-enabled") == 1
+			o := DcpOpts{HealthCheck: health}
+			o.Vbs = 2
+			o.CheckpointType = "manual"
+			c := NewCluster(&o.EnvOpts)
+			e := NewDcpEnv(c, o)
+			if e.Err != nil {
+				vrt.Failf("newDcp: %v", e.Err)
+				return
+			}
+			e.Start()
+			vrt.Quiesce()
+			c.WaitIdle()
+			vrt.SetOutcome(fmt.Sprintf("health check enabled=%v api disabled=%v", health, e.Cfg.API.Disabled))
+			n := 0
+			c.Fault = func(r *gocbcore.SimRequest) gocbcore.SimAnswer {
+				if r.Kind == "ping" {
+					n++
+					vrt.Logf("PINGFAIL %d", n)
+					return gocbcore.SimAnswer{Kind: "err", Err: gocbcore.ErrTemporaryFailure}
+				}
+				return gocbcore.SimAnswer{}
+			}
+			vrt.Sleep(e.Cfg.HealthCheck.Interval + 30*time.Second)
+			vrt.Quiesce()
+			if health {
+				vrt.Failf("the cluster has not answered a ping for %v (%d failed pings), the process is still running", e.Cfg.HealthCheck.Interval+30*time.Second, n)
+			} else if n > 0 {
+				vrt.Failf("the health check is switched off, %d pings were issued", n)
+			}
+			e.D.Close()
+		}, Classify: func(r *vrt.Result) []string {
+			if r.Status == vrt.StatusCrash && strings.Contains(r.Outcome, "enabled=true") && r.Crash != nil && strings.Contains(r.Crash.Stack, "couchbase/healthcheck.go") {
+				fails := 0
+				for _, l := range r.Log {
+					if strings.HasPrefix(l, "PINGFAIL") {
+						fails++
+					}
+				}
+				if fails != 5 {
+					return []string{fmt.Sprintf("the health checker terminated the process after %d failed pings, want exactly 5", fails)}
+				}
+				r.Failures = nil
+				return nil
+			}
+			if r.Status != vrt.StatusOK {
+				m := "execution ended with status " + r.Status.String()
+				if r.Crash != nil {
+					m += ": panic in " + r.Crash.Thread + ": " + r.Crash.Value
+				}
+				return []string{m}
+			}
+			return nil
+		}}
+	}
 }
